@@ -86,10 +86,13 @@ ACCEPT = {
     "dart": {"char": {"u32"}, "byte": {"u8"}},
     # JNA: Int for a 32-bit code point, Byte for a one-byte bool in fields/returns (Boolean in signatures), Byte for the raw DiplomatByte
     "kotlin": {"char": {"i32"}, "byte": {"u8", "i8"}, "bool": {"bool", "i8"}},
+    "kotlin-callback": {"char": {"i32", "u32"}, "byte": {"u8", "i8"}, "bool": {"bool", "i8"}, "isize": {"isize", "i64"}, "usize": {"usize", "u64"}},
 }
 
 
 def compatible(expected, got, dialect):
+    """dialect "kotlin-callback": JNA callback interfaces use Kotlin-facing types; isize/usize are Long/ULong there, which is the
+    same width on the 64-bit targets this harness models"""
     expected, got = normalize(expected), normalize(got)
     if expected[0] in ("rec", "union"):
         if got[0] != expected[0] or len(got[1]) != len(expected[1]):
